@@ -299,6 +299,24 @@ pub fn corpus(thorough: bool) -> (Vec<Vec<u8>>, usize) {
             }
         }
     }
+    // every one of the 256 byte values inside / after the block size, inside either block hash, and as the terminator
+    for b in 0..=255u8 {
+        for (pre, post) in [
+            (&b"3"[..], &b":AB:CD"[..]),
+            (&b""[..], &b"3:AB:CD"[..]),
+            (&b"3:AB"[..], &b"CD:EF"[..]),
+            (&b"3:"[..], &b":EF"[..]),
+            (&b"3:AB:CD"[..], &b"EF"[..]),
+            (&b"3:AB:"[..], &b""[..]),
+            (&b"3:AB:CD"[..], &b""[..]),
+            (&b"3:AB:CD"[..], &b"x:y"[..]),
+        ] {
+            let mut t = pre.to_vec();
+            t.push(b);
+            t.extend_from_slice(post);
+            texts.push(t);
+        }
+    }
     // powers of two, and the neighbours of every valid size
     for n in 0..=34u32 {
         texts.push(mk(format!("{}", 1u128 << n).as_bytes(), b"AB", b"CD", b""));
@@ -463,7 +481,7 @@ pub fn run(ctx: &Ctx) -> Report {
     rep.set("exhaustive", true);
     rep.set(
         "rule",
-        "texts = products of block-size spellings (31 valid; 0, 03, 4, 16, 2^32-1, 2^32, every valid size + k*2^32 and + 2^64, with a digit appended / prepended, 80 digits, empty, signs, spaces) x block-hash texts (a run of length l at position p with tail q: raw / normalised lengths below, at, above the capacities 32 and 64; two-run overflow texts) x tails (none, comma, name, colon, '@', 0xff, 'A', LF, CRLF, blank, tab); runs of 1..9 of every one of the 64 symbols at the start / middle / end of either block hash; deviation 1 = every single-byte insert/replace/delete/truncate at every offset of strided seeds with bytes {: , A / 0 9 @ = 00 80 ff LF CR blank}; deviation 2 (thorough) = all pairs of edits of five short seeds.  Texts are de-duplicated (distinct_nontrivial counts distinct texts); each is parsed into all six types through from_bytes, from_bytes_with_last_index (index preset 0 and usize::MAX) and str::parse.  evaluations counts parses.",
+        "texts = products of block-size spellings (31 valid; 0, 03, 4, 16, 2^32-1, 2^32, every valid size + k*2^32 and + 2^64, with a digit appended / prepended, 80 digits, empty, signs, spaces) x block-hash texts (a run of length l at position p with tail q: raw / normalised lengths below, at, above the capacities 32 and 64; two-run overflow texts) x tails (none, comma, name, colon, '@', 0xff, 'A', LF, CRLF, blank, tab); every one of the 256 byte values at 8 structural positions; runs of 1..9 of every one of the 64 symbols at the start / middle / end of either block hash; deviation 1 = every single-byte insert/replace/delete/truncate at every offset of strided seeds with bytes {: , A / 0 9 @ = 00 80 ff LF CR blank}; deviation 2 (thorough) = all pairs of edits of five short seeds.  Texts are de-duplicated (distinct_nontrivial counts distinct texts); each is parsed into all six types through from_bytes, from_bytes_with_last_index (index preset 0 and usize::MAX) and str::parse.  evaluations counts parses.",
     );
     rep.assume("the error *kind* only has to be one of the error conditions the offending field exhibits (a field can be both too long and wrongly terminated); the offset is a hint and is not checked");
     rep.assume("under the strict parser a field of exactly N symbols followed by a non-terminator may be reported as too long (that scanner stops after N symbols)");
